@@ -139,6 +139,7 @@ class Fsx:
         self.open_files = {}
         self.torn_files = set()
         self._saved = None
+        self.snapshot_to = None  # directory receiving one copy of the root per instant (for concurrent-reader checks)
         self.mkdir_race = None  # predicate(relpath): this mkdir loses a race against another process
         self.actor = None  # who performs the effects (set by the harness, e.g. the writer index)
         self.reads = []  # (actor, relative path) of files opened for reading inside the root
@@ -156,6 +157,15 @@ class Fsx:
     def effect(self, kind, path):
         """Registers an effect; returns True if the writer dies AT this effect (before it takes place)."""
         k = self.counter
+        if self.snapshot_to is not None and not self.dead:
+            # the directory as it is at instant k (before effect k); flushed data only - what another process can see
+            import shutil
+            for wf in self.open_files.values():
+                try:
+                    wf._real.flush()
+                except Exception:  # noqa: BLE001
+                    pass
+            shutil.copytree(self.root, os.path.join(self.snapshot_to, str(k)))
         self.counter += 1
         self.log.append((k, kind, os.path.relpath(os.fspath(path), self.root)))
         self.writes.append((self.actor, kind, os.path.relpath(os.fspath(path), self.root)))
